@@ -10,7 +10,7 @@ Which untrusted strings become host paths, and why each of them stays inside its
 | package cache entry (`cacheDirForPackage`) | URL of the record only (index: `<repo>/<name>-<version>.apk`) | `cacheDirForPackage_confined` + `tie_cacheDirForPackage`, `tie_packageAsURL`, `tie_pkg_record_uses` |
 | `os.MkdirAll(cacheDir)`, `expand-apk*`, `stream-N.tar(.gz)` | entry + constants + counters | `pkg_cache_writes_within_root`, `tie_expand_names` |
 | `<hex>.ctl/.sig/.dat.tar.gz`, `.dat.tar` (`cachePackage`) | entry + `hex.EncodeToString` of digests apko computed | `pkg_cache_writes_within_root`, `tie_cachePackage_paths` |
-| `<datahash>.dat.tar.gz` (`cachedPackage`) | entry + the `datahash` STRING of a cached control section | `pkg_dat_file_within` (**false** in full: `not_pkg_dat_file_within`), `pkg_dat_file_within_partial`; only hex strings or the empty string are let into the cache: `tie_verifyExpanded_datahash` |
+| `<datahash>.dat.tar.gz` (`cachedPackage`) | entry + the `datahash` STRING of a cached control section | `pkg_dat_file_within` (**false** in full: `not_pkg_dat_file_within`), `pkg_dat_file_within_partial`; only hex strings or the empty string are let into the cache (`tie_verifyExpanded_datahash`), and a non-hex string ends `cachedPackage` after `os.Stat`, before any write (`tie_cachedPackage_dat_order`) |
 | `sbom-<arch>.<ext>`, `apko-<arch>.tar.gz`, `<wd>/<arch>` | architecture string of the configuration / command line | `arch_paths_within` (**false** in full: `not_arch_paths_within`), `arch_paths_within_partial`; `tie_arch_names` |
 | image-root files (`etc/apk/world`, `lib/apk/db/installed`, `scripts.tar`, `triggers`) | constants (the hostile fields are *content*) | `dirfs_lexical` |
 -/
@@ -314,6 +314,11 @@ theorem tie_cachedPackage_paths :
     ∧ Generated.cachedPackageChecksum = ["base64.StdEncoding.DecodeString(chk[2:])"]
     ∧ Generated.cachedPackageDatahash = ["a.datahash(f)"] := by
   refine ⟨by rfl, by rfl, by rfl, by rfl⟩
+
+/-- `cachedPackage`: the path made of the `datahash` string is only handed to `os.Stat`; a string that is not hex ends
+the function (`hex.DecodeString`) before `PackageData` could regenerate a `.dat.tar` next to it -/
+theorem tie_cachedPackage_dat_order : Generated.cachedPackageDatOrder =
+    ["os.Stat(ctl)", "os.Stat(dat)", "os.Stat(sig)", "hex.DecodeString(datahash)", "exp.PackageData()"] := by rfl
 
 /-- every use of the package record in the four functions: the name goes into spans, log lines and error
 messages only; the checksum into `chk`; the record as a whole to `packageAsURL` and the callees above -/
